@@ -232,6 +232,17 @@ class _Subst(ast.NodeTransformer):
         return n
 
 
+def _names_read_by_enclosing_handlers(caller: ast.FunctionDef, call: ast.Call) -> Set[str]:
+    out: Set[str] = set()
+    for t in _walk_no_defs(caller):
+        if isinstance(t, ast.Try) and any(c is call for b in t.body for c in ast.walk(b)):
+            for part in list(t.handlers) + list(t.finalbody):
+                for n in ast.walk(part):
+                    if isinstance(n, ast.Name) and isinstance(n.ctx, ast.Load):
+                        out.add(n.id)
+    return out
+
+
 def _assigned(fn: ast.FunctionDef) -> Set[str]:
     out = set()
     for n in _walk_no_defs(fn):
@@ -423,6 +434,11 @@ class Inliner:
             for n in ast.walk(mode[1]):
                 if isinstance(n, ast.Name):
                     target_names.add(n.id)
+        # Soundness for exceptional exits: in the real program the assignment `t = helper()` does not happen when the
+        # helper is left by an exception, so a handler / finally of the caller that reads `t` must not see a value the
+        # helper bound half-way.  If such a handler encloses the call, the helper's locals never alias the target.
+        if target_names & _names_read_by_enclosing_handlers(caller, call):
+            target_names = set()
         for loc in assigned:
             if loc in mapping:
                 continue
